@@ -15,6 +15,10 @@ syntactic shape raises SiteError, which the build records as a broken obligation
     translated by py2v from the source, the strategy bodies are pinned by their exact text.
  3. `s_td_newshape_a`, `s_td_newshape_b`, `s_td_shortcut` — the 2-d target shapes of tensordot's
     reshapes and its zero-size shortcut condition (any(dim == 0 ...) over exactly those two tuples).
+ 4. `s_dot_index_allocs`, `s_coo_indptr_dtype_a/b` — the dtype of every pointer / index / counter array
+    allocated in `_dot` (the COO -> CSR row pointers) and in the product kernels: they hold cumulative
+    counts of stored elements, so they must not be allocated in an operand's (possibly narrow)
+    coordinate dtype.  Model/Dot.v's `coo_csr_indptr` takes the dtype code from here.
 """
 import ast
 import hashlib
@@ -332,6 +336,38 @@ def td_shortcut(fn):
     return tuples, test
 
 
+# ---------------------------------------------------------------------------- 4. index-array allocations
+INDEX_NAMES = ("a_indptr", "b_indptr", "indptr", "indices", "coords", "mask", "next_")
+ALLOC_FUNCS = ("_dot", "_csr_csr_count_nnz", "_csc_ndarray_count_nnz", "_dot_csr_csr_type", "_dot_csr_ndarray_type_sparse",
+               "_dot_csc_ndarray_type_sparse", "_dot_coo_coo_type")
+DTYPE_CODE = {"np.intp": 0, "a.coords.dtype": 1, "b.coords.dtype": 1, "dtr": 2, None: 3}
+
+
+def index_allocs(tree):
+    """every `X = np.empty/np.zeros/np.full(..., dtype=D)` of a pointer / index / counter array in _dot and in the
+    product kernels: (function, variable, dtype code).  A dtype expression outside DTYPE_CODE fails closed."""
+    rows = []
+    for fname in ALLOC_FUNCS:
+        fn = _func(tree, fname)
+        for n in ast.walk(fn):
+            if isinstance(n, ast.Assign) and len(n.targets) == 1 and isinstance(n.targets[0], ast.Name) \
+                    and n.targets[0].id in INDEX_NAMES and isinstance(n.value, ast.Call) \
+                    and U(n.value.func) in ("np.empty", "np.zeros", "np.full"):
+                dt = None
+                for k in n.value.keywords:
+                    if k.arg == "dtype":
+                        dt = U(k.value)
+                if dt not in DTYPE_CODE:
+                    raise SiteError(f"{fname}: `{U(n)}`: dtype expression `{dt}` of an index array is not one the model knows")
+                rows.append((fname, n.targets[0].id, dt, DTYPE_CODE[dt]))
+    need = {("_dot", "a_indptr"), ("_dot", "b_indptr"), ("_dot_csr_csr_type", "indptr"), ("_dot_csr_csr_type", "indices"),
+            ("_dot_coo_coo_type", "coords"), ("_dot_csr_ndarray_type_sparse", "indptr"), ("_dot_csc_ndarray_type_sparse", "indptr")}
+    have = {(f, v) for f, v, _d, _c in rows}
+    if not need <= have:
+        raise SiteError(f"index-array allocations not found: {sorted(need - have)}")
+    return rows
+
+
 # ---------------------------------------------------------------------------- output
 def generate(repo):
     path = os.path.join(repo, COMMON)
@@ -340,6 +376,7 @@ def generate(repo):
     rows = dot_table(_func(tree, "_dot"))
     mm_coq, mm_tests = matmul_case(_func(tree, "matmul"))
     tuples, sc_test = td_shortcut(_func(tree, "tensordot"))
+    allocs = index_allocs(tree)
     h = hashlib.sha256((U(_func(tree, "_dot")) + U(_func(tree, "matmul")) + U(_func(tree, "tensordot"))).encode()).hexdigest()[:16]
     out = ["(* Gen/S_dot.v — generated by tools/sitegen/dot.py from sparse/numba_backend/_common.py (_dot, matmul,",
            f"   tensordot; srchash={h}).  Do not edit. *)",
@@ -369,7 +406,21 @@ def generate(repo):
     out.append("Definition s_td_shortcut (N2a N2b : Z) : bool :=")
     out.append("  existsb (fun dim => dim =? 0) (s_td_newshape_a N2a ++ s_td_newshape_b N2b).")
     out.append("")
-    report = {"s_dot_table": {"status": "ok", "rows": len(rows), "hash": h},
+    out.append("(* dtypes of the pointer / index / counter arrays allocated in _dot and in the product kernels:")
+    out.append("   0 np.intp | 1 the operand's coordinate dtype (may be narrow) | 2 the data dtype | 3 no dtype= (platform integer) *)")
+    for (f, v, dt, c) in allocs:
+        out.append(f"(*   {f}: {v} = np.*(..., dtype={dt}) *)")
+    out.append("Definition s_dot_index_allocs : list Z := [%s]." % "; ".join(str(c) for (_f, _v, _d, c) in allocs))
+    da = [c for (f, v, _d, c) in allocs if (f, v) == ("_dot", "a_indptr")]
+    db = [c for (f, v, _d, c) in allocs if (f, v) == ("_dot", "b_indptr")]
+    if len(da) != 1 or len(db) != 1:
+        raise SiteError("_dot: a_indptr / b_indptr allocated more than once")
+    out.append("(* the row pointers of the COO @ COO branch of _dot (a_indptr, b_indptr) *)")
+    out.append(f"Definition s_coo_indptr_dtype_a : Z := {da[0]}.")
+    out.append(f"Definition s_coo_indptr_dtype_b : Z := {db[0]}.")
+    out.append("")
+    report = {"s_dot_index_allocs": {"status": "ok", "allocs": [[f, v, dt] for (f, v, dt, _c) in allocs]},
+              "s_dot_table": {"status": "ok", "rows": len(rows), "hash": h},
               "s_matmul_case": {"status": "ok", "tests": mm_tests},
               "s_td_shortcut": {"status": "ok", "newshape_a": tuples["newshape_a"], "newshape_b": tuples["newshape_b"]}}
     return {"S_dot.v": "\n".join(out)}, report
